@@ -569,6 +569,29 @@ fn run(c: &Case) -> Outcome {
             }
             Err(e) => a.fail("cleartext-new", "sign", e),
         }
+        // a configuration that names no issuer at all (the verifier is told the key)
+        let bare = |k: &pgp::packet::SecretKey, h: HashAlgorithm| -> pgp::errors::Result<SignatureConfig> {
+            let mut cfg = cfg_for(k, h)?;
+            cfg.hashed_subpackets.truncate(1);
+            cfg.unhashed_subpackets.clear();
+            Ok(cfg)
+        };
+        match bare(key, hash).and_then(|cfg| CleartextSignedMessage::new(text, cfg, key, &pw)) {
+            Ok(m) => {
+                a.check("cleartext-new(no issuer subpackets)", "verify", es(m.verify(&pubkey).map(|_| ())));
+                a.check(
+                    "cleartext-new(no issuer subpackets)",
+                    "armored->from_string->verify",
+                    es(m.to_armored_string(None.into())).and_then(|s| es(CleartextSignedMessage::from_string(&s)).and_then(|(m2, _)| es(m2.verify(&pubkey).map(|_| ())))),
+                );
+            }
+            Err(e) => a.fail("cleartext-new(no issuer subpackets)", "sign", e),
+        }
+        // the same kind of signature made detached: Signature::verify with the key given
+        match bare(key, hash).and_then(|cfg| cfg.sign(key, &pw, text.as_bytes())) {
+            Ok(sig) => a.check("config-sign(no issuer subpackets)", "Signature::verify", es(sig.verify(&pubkey, text.as_bytes()))),
+            Err(e) => a.fail("config-sign(no issuer subpackets)", "sign", e),
+        }
         let many = CleartextSignedMessage::new_many(text, |to_sign| {
             let s1 = cfg_for(key, hash)?.sign(key, &pw, to_sign.as_bytes())?;
             let s2 = cfg_for(key2, HashAlgorithm::Sha512)?.sign(key2, &pw, to_sign.as_bytes())?;
@@ -741,7 +764,7 @@ pub fn check(ctx: &Ctx) {
     ctx.run_space(
         "sign_x_verify",
         true,
-        "payloads: all strings over {CR,LF,TAB,SP,'-','a',e-acute,NUL} up to length 4 (thorough 5) and over {CR,LF,x} up to length 9 (10); for each: detached binary/text, SignatureConfig::sign with every 2-piece delivery, MessageBuilder (binary, text sig over binary literal, text sig over utf8 literal; 1 and 2 signers; binary and armored; for the shortest and the boundary payloads also through seipd_v1 / seipd_v2 with the signers added before and after the transition), cleartext framework through sign / new (hash under test) / new_many (two signers, two hashes) -- each verified through every applicable interface (direct, after to_bytes/from_bytes, after armor, inline after read_to_end and after 1-byte reads, signature packet extracted from a message and verified as detached, detached signature wrapped as a prefixed-signature message). Every payload with Ed25519 v4 and v6 (SHA-256/512 alternating); ECDSA P-256 v4/v6, EdDSA-legacy, RSA-2048, Ed448 on the short payloads; plus dash/armor-boundary lines (alone, as second line, with final newline), plus payloads x^n.w (w over {CR,LF,x}, |w|<=2) ending exactly at / one past 512, 1024, 8192. evaluations = (sign,verify) pairs.",
+        "payloads: all strings over {CR,LF,TAB,SP,'-','a',e-acute,NUL} up to length 4 (thorough 5) and over {CR,LF,x} up to length 9 (10); for each: detached binary/text, SignatureConfig::sign with every 2-piece delivery, MessageBuilder (binary, text sig over binary literal, text sig over utf8 literal; 1 and 2 signers; binary and armored; for the shortest and the boundary payloads also through seipd_v1 / seipd_v2 with the signers added before and after the transition), cleartext framework through sign / new (hash under test; also with a configuration that carries no issuer subpackets) / new_many (two signers, two hashes) -- each verified through every applicable interface (direct, after to_bytes/from_bytes, after armor, inline after read_to_end and after 1-byte reads, signature packet extracted from a message and verified as detached, detached signature wrapped as a prefixed-signature message). Every payload with Ed25519 v4 and v6 (SHA-256/512 alternating); ECDSA P-256 v4/v6, EdDSA-legacy, RSA-2048, Ed448 on the short payloads; plus dash/armor-boundary lines (alone, as second line, with final newline), plus payloads x^n.w (w over {CR,LF,x}, |w|<=2) ending exactly at / one past 512, 1024, 8192. evaluations = (sign,verify) pairs.",
         cases.into_par_iter(),
         run,
     );
